@@ -82,6 +82,14 @@ func (s *Slots) Greet() string                  { return "hi:" + s.Str }
 func (s *Slots) HTMLID() string                 { return "html:" + s.Str }
 func (s *Slots) Tint(c string) string           { return "tint:" + c }
 func (s *Slots) Tag(l Label) string             { return "tag:" + string(l) }
+
+// Opt takes an optional argument: an interface{} parameter holds the value or nil.
+func (s *Slots) Opt(o interface{}) string {
+	if o == nil {
+		return "opt:<nil>"
+	}
+	return "opt:" + fmt.Sprint(o)
+}
 func (s *Slots) Flip(b bool) bool               { return !b }
 func (s *Slots) Swap(b bool, str string) string { return str + "/" + strconv.FormatBool(b) }
 func (s *Slots) Peer() interface{}              { return s.Obj }
@@ -163,7 +171,7 @@ func slotFor(c *Case, typeName, field string) string {
 }
 
 // computedSlots are backed by methods; the rest by struct fields.
-var computedSlots = map[string]bool{"echo": true, "pick": true, "greet": true, "flip": true, "swap": true, "peer": true, "peers": true, "count": true, "risky": true, "htmlid": true, "tint": true, "tag": true}
+var computedSlots = map[string]bool{"echo": true, "pick": true, "greet": true, "flip": true, "swap": true, "peer": true, "peers": true, "count": true, "risky": true, "htmlid": true, "tint": true, "tag": true, "opt": true}
 
 // universeSlotOf is set per world so that UniverseCompute can translate renamed fields.
 var universeSlotOf func(typeName, field string) string
@@ -192,6 +200,11 @@ func UniverseCompute(n *hx.Node, fd *hx.Field, args map[string]interface{}) (hx.
 		return hx.Str("tint:" + fmt.Sprint(args["c"])), true
 	case "tag":
 		return hx.Str("tag:" + fmt.Sprint(args["l"])), true
+	case "opt":
+		if args["o"] == nil {
+			return hx.Str("opt:<nil>"), true
+		}
+		return hx.Str("opt:" + fmt.Sprint(args["o"])), true
 	case "flip":
 		return hx.Bool(!b), true
 	case "swap":
